@@ -295,14 +295,33 @@ func ruleV(p *Program, r *Reporter) {
 	if sends == 0 || recvs == 0 {
 		r.Anchor("V3", fmt.Sprintf("event channel: %d sends, %d receives", sends, recvs))
 	}
-	la := getLockAnalysis(p)
+	_ = hm // the handler list itself is guarded by handlersMutex: that is L2's obligation (guard table)
+	ci := getCallIndex(p)
+	var inLoopDeep func(fn *ssa.Function, at ssa.Instruction, depth int) bool
+	inLoopDeep = func(fn *ssa.Function, at ssa.Instruction, depth int) bool {
+		fc := newFlowCtx(fn)
+		if fc.blockReach(at.Block(), at.Block()) {
+			return true
+		}
+		// a per-handler helper: every call site of it is inside a loop
+		if depth > 2 || fn.Parent() != nil {
+			return false
+		}
+		sites := ci.sites[fn]
+		if len(sites) == 0 {
+			return false
+		}
+		for _, s := range sites {
+			if !inLoopDeep(s.caller, s.instr, depth+1) {
+				return false
+			}
+		}
+		return true
+	}
 	for _, c := range handlerCalls {
 		hfn := c.Parent()
-		held, _ := la.heldAt(hfn, c, hm, true, map[*ssa.Function]bool{}, 0)
-		fc := newFlowCtx(hfn)
-		inLoop := fc.blockReach(c.Block(), c.Block())
-		ok := held && inLoop
+		ok := inLoopDeep(hfn, c, 0)
 		r.Ob("V3", funcName(hfn), "handlers called under handlersMutex", c.Pos(), ok, true,
-			ifs(ok, "every registered handler is called for the event, in one loop, with the handler list locked", "handler invoked without handlersMutex or outside the loop over handlers: handlers can see different sequences"))
+			ifs(ok, "the handler is called from a loop over the handler list (directly or through a per-handler helper); the list itself is read under handlersMutex (L2)", "handler invoked outside a loop over the handlers: handlers can see different sequences"))
 	}
 }
